@@ -59,9 +59,18 @@ class Step:
         self.meta = meta or {}
 
 
+def timeflag(f, k):
+    """begin/end time-flag variables of IOAPI-style files (TFLAG, and the
+    ETFLAG the CAMx readers add): their VAR axis is metadata the class
+    rebuilds, not data to compute with or to rename"""
+    return is_ioapi(f) and k in ('TFLAG', 'ETFLAG')
+
+
 def numeric_vars(f):
     out = []
     for k in f.variables.keys():
+        if timeflag(f, k):
+            continue
         v = f.variables[k]
         if np.dtype(v.dtype).kind in 'fiu':
             out.append(k)
@@ -70,7 +79,8 @@ def numeric_vars(f):
 
 def datavars(f):
     coords = set(f.getCoords())
-    return [k for k in f.variables.keys() if k not in coords]
+    return [k for k in f.variables.keys() if k not in coords and
+            not timeflag(f, k)]
 
 
 def is_ioapi(f):
@@ -236,7 +246,10 @@ def op_stack(rng, f):
         return None
     d = str(rng.choice(dims))
     g = f.copy()
-    return ('stack(copy, %s)' % d, (lambda: f.stack(g, d)), [g], True,
+    # readers of CAMx files expose an end-time variable (ETFLAG) that derived
+    # files do not carry: the copy is then not a conforming operand
+    dom = set(f.variables.keys()) <= set(g.variables.keys())
+    return ('stack(copy, %s)' % d, (lambda: f.stack(g, d)), [g], dom,
             {'stackdim': d})
 
 
@@ -256,7 +269,7 @@ def op_subset(rng, f):
 def op_renamevar(rng, f):
     keys = [k for k in f.variables.keys() if k not in f.dimensions]
     if is_ioapi(f):
-        keys = [k for k in keys if k != 'TFLAG']
+        keys = [k for k in keys if not timeflag(f, k)]
     if not keys:
         return None
     old = str(rng.choice(keys))
